@@ -32,7 +32,8 @@ TABLE = {
                              "Proofs/DictFacts.v", "Proofs/C10Proofs.v", "Base/Dec.v", "Base/PyLib.v",
                              "Model/DepExec.v", "Proofs/DepSafe.v", "Proofs/Fidelity.v", "Proofs/DepCeiling.v"], n=(90, 800)),
     "C11": dict(kinds=["block", "step", "dep", "cblock", "cstep"], oracle=oracles.c11,
-                cone=SAFE + ["Model/StepExec.v", "Proofs/StepSafe.v", "Proofs/ExecOrder.v"], n=(70, 700)),
+                cone=SAFE + ["Model/StepExec.v", "Proofs/StepSafe.v", "Proofs/ExecOrder.v", "Model/DepExec.v", "Model/DepOrderSpec.v",
+                             "Proofs/DepSafe.v", "Proofs/Fidelity.v", "Proofs/DepMeasure.v", "Proofs/DepOrder.v"], n=(70, 700)),
     "C12": dict(kinds=["block", "step", "dep", "cblock", "cstep", "ublock"], oracle=oracles.c12, cone=LIVE, n=(70, 700)),
 }
 
